@@ -38,6 +38,7 @@ class Tracker:
         self.sops = {}           # server name -> [Gallina sop terms]
         self.seen = {}           # server name -> flattened observations, 7 integers per operation
         self.usable = True       # False once something happened that the one-server model does not describe
+        self.decl = {}           # server name -> the declaration (record in /servers) its Server object was made from
 
     # ---- correspondence ------------------------------------------------------------------------------------
     def _observe(self, w, name):
@@ -71,8 +72,18 @@ class Tracker:
         if k == 'ServerRecord':
             name = self.em.sname(op[1]['id'])
             info['obj'] = w.m.servers.get(name) if w.m is not None else None
+        if not self.decl:
+            for srv in w.case['servers']:
+                self.decl[self.em.sname(srv['id'])] = srv
         self.on_op(w, op)
         return info
+
+    @staticmethod
+    def _decl_term(srv):
+        part = srv.get('partition')
+        return ('{| d_cap := %s; d_label := %s; d_traits := %s; d_parent := %s |}'
+                % (G.zlist([int(x) for x in srv['cap']]), G.z(0 if not part else 1 + sum(ord(ch) for ch in part)),
+                   G.z(1 if srv.get('traits') else 0), G.z(int(srv['rack']))))
 
     def after_op(self, w, op, info):
         k = op[0]
@@ -87,10 +98,13 @@ class Tracker:
             name = self.em.sname(op[1]['id'])
             old = info.get('obj')
             new = w.m.servers.get(name)
-            if old is None:
+            if old is None or name not in self.decl:
                 self._emit(w, name, 'SLoad %s' % G.z(now))
             else:
-                self._emit(w, name, 'SReload %s %s' % (G.b(new is not old), G.z(now)))
+                # the model decides whether reload_server keeps the object (Server.is_same and the same parent)
+                self._emit(w, name, 'SReloadDecl %s %s %s' % (self._decl_term(self.decl[name]), self._decl_term(op[1]),
+                                                               G.z(now)))
+            self.decl[name] = op[1]
         elif k == 'ServerState':
             self._emit(w, self.em.sname(op[1]), 'SEvent %s %s' % (ST[op[2]], G.z(now)))
         elif k in ('ServerDeleteApi', 'PendingStartCheck', 'Deliver'):
